@@ -18,7 +18,8 @@
 (***************************************************************************)
 EXTENDS CrashDomain, Json
 
-CONSTANTS MaxNodes, MaxEdges
+CONSTANTS MaxNodes, MaxEdges,
+          KindFilter    \* the node kinds of this run (a sub-domain may be explored with more edges)
 
 VARIABLES kind,    \* sequence of node kinds
           child,   \* child[n]: the node fixed at creation (0 = leaf / none)
@@ -35,13 +36,13 @@ Nodes == 1..N
 Init == /\ kind = <<>> /\ child = <<>> /\ late = {} /\ nlate = 0 /\ last = 0 /\ phase = "nodes" /\ hist = <<>>
 
 NewLate(k) ==
-  /\ phase = "nodes" /\ N < MaxNodes /\ k \in LateKinds
+  /\ phase = "nodes" /\ N < MaxNodes /\ k \in LateKinds \cap KindFilter
   /\ kind' = Append(kind, k) /\ child' = Append(child, 0)
   /\ hist' = Append(hist, <<"new", k, 0>>)
   /\ UNCHANGED <<late, nlate, last, phase>>
 
 NewFixed(k, c) ==
-  /\ phase = "nodes" /\ N < MaxNodes /\ k \in FixedKinds /\ c \in 0..N
+  /\ phase = "nodes" /\ N < MaxNodes /\ k \in FixedKinds \cap KindFilter /\ c \in 0..N
   /\ (k = "bound" => c # 0 /\ kind[c] \in {"list", "dict"})
   /\ kind' = Append(kind, k) /\ child' = Append(child, c)
   /\ hist' = Append(hist, <<"new", k, c>>)
@@ -109,6 +110,7 @@ Pred(r, op) ==
          IF ~Cyclic(r) THEN "o" ELSE IF HasStruct(r) THEN "*" ELSE "m"
     [] op \in {"eq", "in"} ->          \* isomorphic heaps: equal until a function (identity) or the depth limit decides
          IF HasFn(r) THEN "*" ELSE IF Cyclic(r) THEN "E" ELSE "o"
+    [] op \in {"eqx", "ltx", "sortedx"} -> "*"     \* several comparisons: each must terminate, the classes are not fixed
     [] op = "eqself" -> IF Cyclic(r) THEN "*" ELSE "o"
     [] op \in {"lt", "sorted"} ->
          IF ~Ordered(r) THEN "e" ELSE IF HasFn(r) THEN "*" ELSE IF Cyclic(r) THEN "E" ELSE "o"
